@@ -86,4 +86,11 @@ _c('C14', 'Proved for graphs of any size: potentials_sound (a path whose weight 
           'checker inside Coq; the edge bound is re-measured on every graph loaded.',
    'Coq proof of a shortest-path certificate checker and of heuristic admissibility; per-instance certificate validation of the real router; exact Dijkstra monitor')
 
+_c('C01', 'Proved: sorting by a total, transitive order that is antisymmetric on the elements (an injective key) yields the same list for every enumeration of a container, so the model\'s id-sorted traversals are the function Python computes; '
+          'folding a commuting operation is enumeration-independent; and every place where /repo\'s CURRENT sources enumerate a hash-ordered container (inventory regenerated from the AST on every run) is in the reconciled table with one of those '
+          'reasons (vm_compute) - a new, moved or rewritten site fails the theorem. The reconciliation of each site with its class is by reading and is backed by running shipped and generated scenarios in fresh processes under several hash seeds '
+          '(per-step state fingerprints, event multisets, summary statistics).',
+   'Coq proof (permutation-invariance of sorted traversals and commuting folds) + regenerated iteration-site inventory decided by vm_compute + multi-hash-seed differential runs',
+   'The syntactic inventory recognises hash-ordered receivers by field name; initialisation-time sampling helpers are classed SetupOnly.')
+
 NOT_CLAIMED = {}
